@@ -92,6 +92,7 @@ __CPROVER_assigns();
     __CPROVER_decreases(tx->vin_size - i_nul)
 
 /* ---- the contract: the statement, clause by clause ------------------------------------------------ */
+VERIF_REACH_DECL(CheckTransaction)
 bool CheckTransaction(const CTransaction* tx, TxValidationState* state)
 __CPROVER_requires(__CPROVER_is_fresh(tx, sizeof(*tx)) && __CPROVER_is_fresh(state, sizeof(*state)))
 __CPROVER_requires(tx->vin_size <= SPEC_MAXLEN && tx->vout_size <= SPEC_MAXLEN && tx->ser_size_nowit <= ((uint64_t)1 << 40))
@@ -123,17 +124,17 @@ __CPROVER_ensures(REASON(SPEC_R_bad_cb_length) ==> (NONEMPTY && SIZE_OK && ALL_O
 __CPROVER_ensures(REASON(SPEC_R_bad_txns_prevout_null) ==> (NONEMPTY && SIZE_OK && ALL_OUTS_OK && NODUP_BEFORE(tx->vin_size) && !IS_CB && g_cur_nul < tx->vin_size && NULLP(tx->vin[g_cur_nul].prevout) && (g_n < g_cur_nul ==> !NULLP(tx->vin[g_n].prevout))))
 #endif
 /* vacuity guards: every outcome is reachable under the precondition */
-VERIF_REACH_ENSURES(__CPROVER_return_value && IS_CB)
-VERIF_REACH_ENSURES(__CPROVER_return_value && !IS_CB && tx->vin_size > 2 && tx->vout_size > 2)
-VERIF_REACH_ENSURES(REASON(SPEC_R_bad_txns_vin_empty))
-VERIF_REACH_ENSURES(REASON(SPEC_R_bad_txns_vout_empty))
-VERIF_REACH_ENSURES(REASON(SPEC_R_bad_txns_oversize))
-VERIF_REACH_ENSURES(REASON(SPEC_R_bad_txns_vout_negative) && g_cur_out > 1)
-VERIF_REACH_ENSURES(REASON(SPEC_R_bad_txns_vout_toolarge))
-VERIF_REACH_ENSURES(REASON(SPEC_R_bad_txns_txouttotal_toolarge) && g_cur_out > 1)
-VERIF_REACH_ENSURES(REASON(SPEC_R_bad_txns_inputs_duplicate) && g_cur_in > 1)
-VERIF_REACH_ENSURES(REASON(SPEC_R_bad_cb_length))
-VERIF_REACH_ENSURES(REASON(SPEC_R_bad_txns_prevout_null) && g_cur_nul > 0)
+VERIF_REACH_ENSURES(CheckTransaction, __CPROVER_return_value && IS_CB)
+VERIF_REACH_ENSURES(CheckTransaction, __CPROVER_return_value && !IS_CB && tx->vin_size > 2 && tx->vout_size > 2)
+VERIF_REACH_ENSURES(CheckTransaction, REASON(SPEC_R_bad_txns_vin_empty))
+VERIF_REACH_ENSURES(CheckTransaction, REASON(SPEC_R_bad_txns_vout_empty))
+VERIF_REACH_ENSURES(CheckTransaction, REASON(SPEC_R_bad_txns_oversize))
+VERIF_REACH_ENSURES(CheckTransaction, REASON(SPEC_R_bad_txns_vout_negative) && g_cur_out > 1)
+VERIF_REACH_ENSURES(CheckTransaction, REASON(SPEC_R_bad_txns_vout_toolarge))
+VERIF_REACH_ENSURES(CheckTransaction, REASON(SPEC_R_bad_txns_txouttotal_toolarge) && g_cur_out > 1)
+VERIF_REACH_ENSURES(CheckTransaction, REASON(SPEC_R_bad_txns_inputs_duplicate) && g_cur_in > 1)
+VERIF_REACH_ENSURES(CheckTransaction, REASON(SPEC_R_bad_cb_length))
+VERIF_REACH_ENSURES(CheckTransaction, REASON(SPEC_R_bad_txns_prevout_null) && g_cur_nul > 0)
 __CPROVER_assigns(state->mode_invalid, state->result, state->reason, g_cur_out, g_cur_in, g_cur_nul, g_cnt, g_sum, g_dup_wit);
 
 #include "slices.h"
@@ -150,5 +151,6 @@ void h_CheckTransaction(void)
     CTransaction* tx; TxValidationState* st;
     g_k = nondet_size_t(); g_a = nondet_size_t(); g_b = nondet_size_t(); g_n = nondet_size_t();
     g_cur_out = nondet_size_t(); g_cur_in = nondet_size_t(); g_cur_nul = nondet_size_t(); g_dup_wit = nondet_size_t();
+    VERIF_REACH_ON(CheckTransaction);
     CheckTransaction(tx, st);
 }
